@@ -967,6 +967,10 @@ def rule_twins(ctx, rep, cfgs, rid, text, prefix, floor):
                 continue
             ref = normalised_body(ds[0])
             bad = [d.self_ty for d in ds[1:] if normalised_body(d) != ref]
+            # ... and implement Logos for the same instantiation of the enum (`impl Logos for P<u64, String>`)
+            def inst_of(d):
+                return re.sub(r'^[A-Za-z_][A-Za-z0-9_]*', 'SELF', d.self_ty)
+            bad += [d.self_ty for d in ds[1:] if inst_of(d) != inst_of(ds[0]) and d.self_ty not in bad]
             if bad:
                 rep.viol(rid, 'twin-mismatch:%s:%s' % (cfg, g), 'group %s: members %s generate a different lexer than %s although they must be equivalent' % (g, bad[:6], ds[0].self_ty), g)
             if len(ds) < 2:
